@@ -153,10 +153,18 @@ func flowsToSliceHigh(cnt ssa.Value, depth int, seen map[ssa.Value]bool) bool {
 
 func c07R1(r *Report) {
 	p := r.P
+	readCountsUsed(r, "R1", map[string]bool{"crypto": true, "protocol": true}, 6)
+	c07R1b(r, p)
+}
+
+// readCountsUsed: in the packages given, a read that may fill only part of its buffer (Read, ReadAtLeast with a
+// minimum below the buffer's length) has its count used to cut the buffer down; io.ReadFull needs no such care.
+func readCountsUsed(r *Report, rule string, pkgs map[string]bool, minN int) {
+	p := r.P
 	n := 0
 	for _, f := range p.SrcFuncs() {
 		pk := relPkg(f)
-		if pk != "crypto" && pk != "protocol" {
+		if !pkgs[pk] {
 			continue
 		}
 		allInstrs(f, func(in ssa.Instruction) {
@@ -184,26 +192,29 @@ func c07R1(r *Report) {
 			// full read: min == len(buf) structurally
 			if min != nil {
 				if cl, ok := min.(*ssa.Call); ok && isLenOf(cl, buf) {
-					r.Ok("R1", key, c.Pos(), "full read (min == len(buf))")
+					r.Ok(rule, key, c.Pos(), "full read (min == len(buf))")
 					return
 				}
 				if ms, ok := buf.(*ssa.MakeSlice); ok && symEq(ms.Len, min, 0) {
-					r.Ok("R1", key, c.Pos(), "full read (buffer made with the minimum length)")
+					r.Ok(rule, key, c.Pos(), "full read (buffer made with the minimum length)")
 					return
 				}
 			}
 			if cnt == nil || len(*cnt.Referrers()) == 0 {
-				r.Fail("R1", key, c.Pos(), "the byte count returned by %s is discarded while the buffer may be longer than the minimum: bytes that were never received (zeros) stay in the buffer and are parsed as data, so the outcome depends on how TCP segments the stream", kind)
+				r.Fail(rule, key, c.Pos(), "the byte count returned by %s is discarded while the buffer may be longer than the minimum: bytes that were never received (zeros) stay in the buffer and are parsed as data, so the outcome depends on how TCP segments the stream", kind)
 				return
 			}
 			if flowsToSliceHigh(cnt, 0, map[ssa.Value]bool{}) {
-				r.Ok("R1", key, c.Pos(), "the returned count bounds the re-slice of the buffer")
+				r.Ok(rule, key, c.Pos(), "the returned count bounds the re-slice of the buffer")
 			} else {
-				r.Fail("R1", key, c.Pos(), "the byte count returned by %s never bounds a re-slice of the buffer: unreceived bytes can be treated as received", kind)
+				r.Fail(rule, key, c.Pos(), "the byte count returned by %s never bounds a re-slice of the buffer: unreceived bytes can be treated as received", kind)
 			}
 		})
 	}
-	r.Sentinel("R1", n, 6)
+	r.Sentinel(rule+".partial-reads", n, minN)
+}
+
+func c07R1b(r *Report, p *Prog) {
 	// synchronise searches the whole accumulated buffer
 	if sy := p.Func("crypto", "synchronise"); r.Anchor("R1", "crypto.synchronise", sy != nil) {
 		r.Fn(sy)
